@@ -202,7 +202,28 @@ fn extract_pseudo_header_order(frames: &[Http2Frame]) -> Vec<PseudoHeader> {
         .find(|f| f.frame_type == Http2FrameType::Headers && f.stream_id > 0);
 
     if let Some(frame) = headers_frame {
-        if let Ok(headers) = decode_headers(&frame.payload) {
+        // The header block is the HEADERS fragment (without pad length, priority fields and
+        // padding) plus the CONTINUATION frames that follow it on the same stream.
+        let mut block: Vec<u8> = match Http2Parser::header_block_fragment(frame) {
+            Ok(fragment) => fragment.to_vec(),
+            Err(_) => return Vec::new(),
+        };
+        if frame.flags & 0x4 == 0 {
+            for next in frames
+                .iter()
+                .skip_while(|f| !std::ptr::eq(*f, frame))
+                .skip(1)
+                .take_while(|f| {
+                    f.frame_type == Http2FrameType::Continuation && f.stream_id == frame.stream_id
+                })
+            {
+                block.extend_from_slice(&next.payload);
+                if next.flags & 0x4 != 0 {
+                    break;
+                }
+            }
+        }
+        if let Ok(headers) = decode_headers(&block) {
             return headers
                 .iter()
                 .filter(|h| h.name.starts_with(':'))
